@@ -485,6 +485,32 @@ def r176(ctx, repo):
     ctx.ob("R17.6", ok, "contour and index are always appended together"
            if ok else "the two deques are not appended together", node=gi,
            label="deques appended together")
+    # every mutation of one deque is mirrored on the other (same method, in
+    # the same block): a one-sided delete/pop makes the positions drift
+    muts = {a: [] for a in names}
+    for n in walk(gi):
+        if isinstance(n, ast.Call) and isinstance(n.func, ast.Attribute) \
+                and is_self_attr(n.func.value) and n.func.value.attr in names \
+                and n.func.attr in ("append", "appendleft", "pop", "popleft",
+                                    "remove", "clear", "insert", "rotate",
+                                    "extend"):
+            st = n
+            while not isinstance(st, ast.stmt):
+                st = st.parent
+            muts[n.func.value.attr].append((n.func.attr, id(st.parent)))
+        if isinstance(n, ast.Delete):
+            for t in n.targets:
+                if isinstance(t, ast.Subscript) and is_self_attr(t.value) \
+                        and t.value.attr in names:
+                    muts[t.value.attr].append(("del", id(n.parent)))
+    ok = sorted(muts[names[0]]) == sorted(muts[names[1]])
+    ctx.ob("R17.6", ok, "every mutation of one deque is mirrored on the "
+           "other in the same block" if ok else
+           f"the deques are mutated differently "
+           f"({names[0]}: {[m for m, _ in muts[names[0]]]}, {names[1]}: "
+           f"{[m for m, _ in muts[names[1]]]}): positions drift apart and a "
+           f"hit returns another event's contour", node=gi,
+           label="deque mutations mirrored")
     # the hit path reads the contour at the position of the index
     hit = [n for n in walk(gi) if isinstance(n, ast.Assign) and isinstance(
         n.value, ast.Subscript) and is_self_attr(n.value.value)]
@@ -625,6 +651,10 @@ MUTANTS = [
      ("            self.contours.append(cont)\n"
       "            self.indices.append(idx)\n",
       "            self.contours.append(cont)\n"), "R17.6"),
+    ("hit path deletes from one deque only (seeded C18_1)", CO,
+     ("                cont = self.contours[idx_q]\n",
+      "                cont = self.contours[idx_q]\n"
+      "                del self.indices[idx_q]\n"), "R17.6"),
     ("memoised function reads module table", KDE,
      ("    if bins is None:\n        bins = (max(5, bin_num_doane(events_x)),",
       "    if bins is None and methods:\n"
@@ -632,6 +662,11 @@ MUTANTS = [
 ]
 
 TWINS = [
+    ("hit path moves the entry in both deques", CO,
+     ("                cont = self.contours[idx_q]\n",
+      "                cont = self.contours[idx_q]\n"
+      "                del self.contours[idx_q]\n"
+      "                del self.indices[idx_q]\n")),
     ("kw loop over sorted items", CA,
      ("        kwds = list(kwargs.keys())\n        kwds.sort()\n"
       "        for k in kwds:\n"
